@@ -263,6 +263,11 @@ def gen_sprite(rng: random.Random, *, max_canvas=10, max_layers=6, max_frames=4,
                              "w": pick(rng, 0, 2 ** 32 - 1), "h": pick(rng, 0, 2 ** 32 - 1),
                              "center": (pick(rng, -2 ** 31, 2 ** 31 - 1), pick(rng, -2 ** 31, 2 ** 31 - 1), pick(rng, 0, 2 ** 32 - 1), pick(rng, 0, 2 ** 32 - 1)) if fl & 1 else None,
                              "pivot": (pick(rng, -2 ** 31, 2 ** 31 - 1), pick(rng, -2 ** 31, 2 ** 31 - 1)) if fl & 2 else None})
+                if keys and rng.random() < 0.35:
+                    # a key that repeats the region of the key before it (or of the first key) for another frame - or for the same frame
+                    src = dict(rng.choice([keys[-1], keys[0]]))
+                    src["frame"] = rng.choice([src["frame"], (src["frame"] + 1) & 0xFFFFFFFF, pick(rng, 0, 2 ** 32 - 1)])
+                    keys.append(src)
             s["slices"].append({"name": name(rng), "flags": fl | (rng.choice([0, 4, 0xFFFFFFFC]) if rng.random() < 0.3 else 0),
                                 "keys": keys, "ud": gen_userdata(rng) if rng.random() < 0.4 else None})
     return s
@@ -440,7 +445,8 @@ def build(s: dict, ch: Optional[dict] = None, rng: Optional[random.Random] = Non
     if ch["unused"]:
         sp.flags = rng.randrange(2 ** 32)
         sp.speed = rng.choice([0, 1, 100, 250, 65535, rng.randrange(65536)])      # deprecated: every frame carries its own duration
-        sp.ncolors = rng.randrange(65536)
+        tr_ = s["transparent"]
+        sp.ncolors = rng.choice([rng.randrange(65536), 0, 1, 2, max(0, tr_ - 1), tr_, tr_ + 1, 255, 256, 257, len(s["palette"] or {})])
         sp.grid = (rng.randint(-32768, 32767), rng.randint(-32768, 32767), rng.randrange(65536), rng.randrange(65536))
         if s["tilesets"] and rng.random() < 0.5:
             # a grid whose cell is exactly a tile of one of the tilesets, with an origin that is not a multiple of it
